@@ -49,3 +49,54 @@ Print Assumptions C13_nonvacuous.
 
 (* accessor/constant table regenerated from the source: re-checked with this property *)
 From Traph Require AccessorFacts.
+
+(* ---- on the code translated from the source on every run (GenTraph.v: Traph.get_webentity_parent_webentities,
+   get_webentity_child_webentities(_iter); GenTrie.v: node_parents_iter, lru_node; GenTrieD.v: dfs_iter with
+   skip_childless_paths - the traversal pruned by the NO_CHILD_WEBENTITIES flag).  For EVERY history, on any storage object
+   holding the trie file of the state reached, and any webentity id and list of prefixes: the translated request answers a
+   list without repetition whose elements are exactly the SPECIFICATION's parent (child) webentities; it is refused
+   (None = TraphException) exactly when the specification refuses; it never fails otherwise and writes nothing. *)
+From Traph Require GenTrieFacts GenTraph GenTraphHier StoreFacts2 TraceDefs GenStorage.
+Import GenTraph GenTrieFacts GenStorage.
+Theorem C13_source_parents : forall d rs h, wf_rules rs -> Forall wf_op h ->
+  let s := run d rs h in let a := srun d rs h in
+  forall sg w ps, trep (TraceDefs.files_of s) sg -> Forall wf_lru ps ->
+  match py_traph_get_webentity_parent_webentities sg w ps, s_parents w ps a with
+  | Some (sg', x), ROk y => exists l, x = map Some l /\ set_eq l y /\ pm_array sg' = pm_array sg
+  | None, RRefused => True
+  | _, _ => False
+  end.
+Proof.
+  intros d rs h H1 H2 s a sg w ps Hrep Hps.
+  pose proof (StoreFacts2.run_Inv18 d rs h H2) as Hinv. fold s in Hinv.
+  pose proof (StoreFacts2.run_root_first d rs h) as Hroot. fold s in Hroot.
+  pose proof (GenTraphHier.py_traph_parents_spec s Hinv Hroot sg w ps Hrep Hps) as H.
+  pose proof (C13_parents d rs h H1 H2 w ps Hps) as Hm. cbv zeta in Hm. fold s a in Hm.
+  destruct (parent_webentities w ps s) as [| |x].
+  - rewrite H. destruct (s_parents w ps a); first [exact Hm | destruct Hm].
+  - rewrite H. destruct (s_parents w ps a); first [exact Hm | destruct Hm].
+  - destruct H as (sg' & E & _ & Harr). rewrite E. destruct (s_parents w ps a) as [| |y]; try (destruct Hm; fail).
+    exists x. split; [reflexivity|]. split; [exact Hm|exact Harr].
+Qed.
+Theorem C13_source_children : forall d rs h, wf_rules rs -> Forall wf_op h ->
+  let s := run d rs h in let a := srun d rs h in
+  forall sg w ps, trep (TraceDefs.files_of s) sg -> Forall wf_lru ps ->
+  match py_traph_get_webentity_child_webentities sg w ps, s_children w ps a with
+  | Some (sg', x), ROk y => exists l, x = map Some l /\ set_eq l y /\ pm_array sg' = pm_array sg
+  | None, RRefused => True
+  | _, _ => False
+  end.
+Proof.
+  intros d rs h H1 H2 s a sg w ps Hrep Hps.
+  pose proof (StoreFacts2.run_Inv18 d rs h H2) as Hinv. fold s in Hinv.
+  pose proof (StoreFacts2.run_root_first d rs h) as Hroot. fold s in Hroot.
+  pose proof (GenTraphHier.py_traph_children_full s Hinv Hroot sg w ps Hrep Hps) as H.
+  pose proof (C13_children d rs h H1 H2 w ps Hps) as Hm. cbv zeta in Hm. fold s a in Hm.
+  destruct (child_webentities w ps s) as [| |x].
+  - rewrite H. destruct (s_children w ps a); first [exact Hm | destruct Hm].
+  - rewrite H. destruct (s_children w ps a); first [exact Hm | destruct Hm].
+  - destruct H as (sg' & E & _ & Harr). rewrite E. destruct (s_children w ps a) as [| |y]; try (destruct Hm; fail).
+    exists x. split; [reflexivity|]. split; [exact Hm|exact Harr].
+Qed.
+Print Assumptions C13_source_parents.
+Print Assumptions C13_source_children.
